@@ -253,3 +253,220 @@ Definition footprint (c : cmd) (args : list ref) (h : heap) : list nat :=
   filter (fun o => match nth_error h o, nth_error h' o with
                    | Some a, Some b => negb (obj_eqb a b)
                    | _, _ => true end) (List.seq 0 (length h)).
+
+(* ================================================================== aliasing skeletons
+   Hand-written abstractions of what the anchored entry points do to their arguments and to the aliases of
+   their arguments (third-order tensors, one option set each).  Arguments are the variables 0..n-1, locals
+   start at 10.  "Alloc" stands for every NumPy expression that returns a new array.  Each `sk_*` mirrors the
+   CURRENT code of /repo; each `old_*` mirrors the code before the corresponding `fix:` commit (kept as
+   sensitivity witnesses: `safe` rejects every one of them). *)
+
+Definition CPTENSOR (x w fs : var) : cmd := ListNew x [w; fs].      (* CPTensor((w, fs)): stores the SAME list *)
+
+(* --- initialize_cp(tensor=0, init=1) with a user initialisation (weights, factors), weights not all one *)
+Definition sk_initialize_cp_user : cmd := seq [
+  ListGet 10 1 0; ListGet 11 1 1;            (* kt = CPTensor(init); weights, factors = kt *)
+  ListCopy 12 11 3;                          (* factors = list(factors) *)
+  ListGet 13 12 2; View 14 10 [0; 1];        (* factors[-1], reshape(weights, (1, -1)) *)
+  Alloc 15 2; ListSet 12 2 15;               (* factors[-1] = factors[-1] * ... *)
+  Rebind 16 16;                              (* weights = None *)
+  ListNew 17 [16; 12] ].                     (* kt = CPTensor((None, factors))  -> variable 17 *)
+Definition old_initialize_cp_user : cmd := seq [
+  ListGet 10 1 0; ListGet 11 1 1;
+  ListGet 13 11 0; Alloc 15 2; ListSet 11 0 15;   (* factors[i] = factors[i] * weights_avg  on the caller's list *)
+  ListGet 13 11 1; Alloc 15 2; ListSet 11 1 15;
+  ListGet 13 11 2; Alloc 15 2; ListSet 11 2 15;
+  ListNew 17 [16; 11] ].
+
+(* --- fixed_modes handling (parafac / non_negative_parafac and friends): the last mode cannot be fixed *)
+Definition sk_fixed_modes (fm : var) : cmd := seq [ ListCopy 20 fm 2; ListRemove 20 1 ].
+Definition old_fixed_modes (fm : var) : cmd := seq [ Rebind 20 fm; ListRemove 20 1 ].
+
+(* --- the masked update  tensor = tensor * mask + reconstruction * (1 - mask) *)
+Definition sk_masked_update (tensor mask : var) : cmd := seq [ Alloc 21 4; Rebind tensor 21 ].
+Definition mut_masked_update (tensor mask : var) : cmd := seq [ InplaceOp tensor 2; Alloc 21 4; InplaceOp tensor 3 ].
+
+(* one ALS sweep of parafac over the modes 0,1,2: factors[mode] = transpose(solve(...)) *)
+Definition als_mode (factors : var) (mode : nat) : cmd := seq [
+  ListGet 30 factors 0; ListGet 31 factors 1; ListGet 32 factors 2;   (* read all factors *)
+  Alloc 33 4; InplaceOp 33 2;                (* pseudo_inverse (fresh), pseudo_inverse += Id *)
+  Alloc 34 2;                                (* mttkrp *)
+  Alloc 35 2; View 36 35 [1; 0];             (* transpose(solve(..)) : a view of a fresh array *)
+  ListSet factors mode 36 ].
+
+(* --- parafac(tensor=0, init=1, fixed_modes=2, mask=3), two sweeps, tol > 0 *)
+Definition sk_parafac : cmd := seq [
+  Call 22 sk_initialize_cp_user [0; 1] 17;
+  ListGet 23 22 0; ListGet 24 22 1;          (* weights, factors = initialize_cp(...) *)
+  sk_fixed_modes 2;
+  Repeat 2 (seq [ als_mode 24 0; als_mode 24 1; als_mode 24 2; sk_masked_update 0 3 ]);
+  CPTENSOR 25 23 24 ].
+Definition old_parafac : cmd := seq [
+  Call 22 old_initialize_cp_user [0; 1] 17;
+  ListGet 23 22 0; ListGet 24 22 1;
+  old_fixed_modes 2;
+  Repeat 2 (seq [ als_mode 24 0; als_mode 24 1; als_mode 24 2; sk_masked_update 0 3 ]);
+  CPTENSOR 25 23 24 ].
+Definition mut_parafac_inplace_mask : cmd := seq [
+  Call 22 sk_initialize_cp_user [0; 1] 17;
+  ListGet 23 22 0; ListGet 24 22 1;
+  sk_fixed_modes 2;
+  Repeat 2 (seq [ als_mode 24 0; als_mode 24 1; als_mode 24 2; mut_masked_update 0 3 ]);
+  CPTENSOR 25 23 24 ].
+
+(* --- hals_nnls(UtM=0, UtU=1, V=2): V is documented as the start matrix and is updated in place
+       (index_update on the NumPy backend assigns into its first argument and returns it) *)
+Definition sk_hals_nnls : cmd := seq [
+  Repeat 2 (seq [ Alloc 10 2; WriteInto 2 [1%Z; 2%Z]; Rebind 2 2 ]);   (* V = index_update(V, [k, :], newV) *)
+  Rebind 11 2 ].                              (* return V -> variable 11 *)
+
+(* --- non_negative_parafac_hals(tensor=0, init=1, sparsity_coefficients=2, fixed_modes=3) *)
+Definition hals_mode (factors : var) (mode : nat) : cmd := seq [
+  ListGet 30 factors 0; ListGet 31 factors 1; ListGet 32 factors 2;
+  Alloc 33 4; Alloc 34 2; View 37 34 [1; 0];              (* pseudo_inverse, mttkrp, transpose(mttkrp) *)
+  ListGet 38 factors mode; View 39 38 [1; 0]; Copy 40 39; (* tl.copy(tl.transpose(factors[mode])) *)
+  Call 41 sk_hals_nnls [37; 33; 40] 11;
+  View 42 41 [1; 0]; ListSet factors mode 42 ].
+Definition old_hals_mode (factors : var) (mode : nat) : cmd := seq [
+  ListGet 30 factors 0; ListGet 31 factors 1; ListGet 32 factors 2;
+  Alloc 33 4; Alloc 34 2; View 37 34 [1; 0];
+  ListGet 38 factors mode; View 39 38 [1; 0];             (* tl.transpose(factors[mode]) : a VIEW of the caller's array *)
+  Call 41 sk_hals_nnls [37; 33; 39] 11;
+  View 42 41 [1; 0]; ListSet factors mode 42 ].
+Definition sk_sparsity (sc fm : var) : cmd := seq [
+  ListCopy 26 sc 3; ListCopy 20 fm 1; ListSet 26 0 27 ].  (* sparsity_coefficients[fixed] = None on the COPY *)
+Definition old_sparsity (sc fm : var) : cmd := seq [
+  Rebind 26 sc; Rebind 20 fm; ListSet 26 0 27 ].
+Definition sk_nn_parafac_hals : cmd := seq [
+  Call 22 sk_initialize_cp_user [0; 1] 17;
+  ListGet 23 22 0; ListGet 24 22 1;
+  sk_sparsity 2 3;
+  Repeat 2 (seq [ hals_mode 24 1; hals_mode 24 2 ]);
+  CPTENSOR 25 23 24 ].
+Definition old_nn_parafac_hals : cmd := seq [
+  Call 22 sk_initialize_cp_user [0; 1] 17;
+  ListGet 23 22 0; ListGet 24 22 1;
+  sk_sparsity 2 3;
+  Repeat 2 (seq [ old_hals_mode 24 1; old_hals_mode 24 2 ]);
+  CPTENSOR 25 23 24 ].
+Definition old_nn_parafac_hals_sparsity : cmd := seq [
+  Call 22 sk_initialize_cp_user [0; 1] 17;
+  ListGet 23 22 0; ListGet 24 22 1;
+  old_sparsity 2 3;
+  Repeat 2 (seq [ hals_mode 24 1; hals_mode 24 2 ]);
+  CPTENSOR 25 23 24 ].
+
+(* --- initialize_tucker(tensor=0, init=1) with init = (core, factors); tucker(tensor=0, init=1, mask=2) *)
+Definition sk_initialize_tucker : cmd := seq [
+  ListGet 10 1 0; ListGet 11 1 1; ListCopy 12 11 3; ListNew 13 [10; 12] ].
+Definition old_initialize_tucker : cmd := seq [
+  ListGet 10 1 0; ListGet 11 1 1; Rebind 12 11; ListNew 13 [10; 12] ].
+Definition tucker_body (init_skel : cmd) : cmd := seq [
+  Call 22 init_skel [0; 1] 13;
+  ListGet 23 22 0; ListGet 24 22 1;
+  Repeat 2 (seq [
+    sk_masked_update 0 2;
+    Alloc 30 4; Alloc 31 2; ListSet 24 0 31;
+    Alloc 30 4; Alloc 31 2; ListSet 24 1 31;
+    Alloc 30 4; Alloc 31 2; ListSet 24 2 31;
+    Alloc 23 4 ]);
+  ListNew 25 [23; 24] ].
+Definition sk_tucker : cmd := tucker_body sk_initialize_tucker.
+Definition old_tucker : cmd := tucker_body old_initialize_tucker.
+
+(* --- cp_flip_sign(cp_tensor=0), mode = 0 *)
+Definition flip_body (factors : var) : cmd := seq [
+  ListGet 12 factors 1; Alloc 13 2; ListGet 14 factors 0; Alloc 15 2; ListSet factors 0 15; Alloc 16 2; ListSet factors 1 16;
+  ListGet 12 factors 2; Alloc 13 2; ListGet 14 factors 0; Alloc 15 2; ListSet factors 0 15; Alloc 16 2; ListSet factors 2 16;
+  Alloc 17 2; ListGet 14 factors 0; Alloc 15 2; ListSet factors 0 15; Alloc 18 2;
+  CPTENSOR 19 18 factors ].
+Definition sk_cp_flip_sign : cmd := seq [ ListGet 10 0 0; ListGet 11 0 1; ListCopy 20 11 3; flip_body 20 ].
+Definition old_cp_flip_sign : cmd := seq [ ListGet 10 0 0; ListGet 11 0 1; Rebind 20 11; flip_body 20 ].
+
+(* --- cp_permute_factors(ref=0, tensors_to_permute=1) with a list of one CP tensor *)
+Definition sk_cp_copy : cmd := seq [      (* self = 0 *)
+  ListGet 10 0 0; Copy 11 10; ListGet 12 0 1;
+  ListGet 13 12 0; Copy 14 13; ListGet 13 12 1; Copy 15 13; ListGet 13 12 2; Copy 16 13;
+  ListNew 17 [14; 15; 16]; CPTENSOR 18 11 17 ].
+Definition sk_cp_normalize : cmd := seq [ (* cp_tensor = 0 *)
+  ListGet 10 0 0; ListGet 11 0 1; ListNew 12 [];
+  ListGet 13 11 0; Alloc 14 2; Alloc 10 2; Alloc 15 2; ListAppend 12 15;
+  ListGet 13 11 1; Alloc 10 2; Alloc 15 2; ListAppend 12 15;
+  ListGet 13 11 2; Alloc 10 2; Alloc 15 2; ListAppend 12 15;
+  CPTENSOR 18 10 12 ].
+Definition permute_body (ttp : var) : cmd := seq [
+  ListNew 21 [];
+  ListGet 22 ttp 0; Call 23 sk_cp_copy [22] 18; ListAppend 21 23;
+  Call 24 sk_cp_normalize [22] 18; ListSet ttp 0 24;
+  Call 25 sk_cp_normalize [0] 18; Rebind 0 25;
+  Alloc 26 2;                                                    (* col *)
+  ListGet 27 21 0; ListGet 28 27 1;
+  ListGet 29 28 0; Alloc 30 2; ListSet 28 0 30;                  (* permuted.factors[f] = permuted.factors[f][:, col] *)
+  ListGet 29 28 1; Alloc 30 2; ListSet 28 1 30;
+  ListGet 29 28 2; Alloc 30 2; ListSet 28 2 30;
+  ListGet 31 27 0; Alloc 32 2; ListSet 27 0 32 ].                (* permuted.weights = ... *)
+Definition sk_cp_permute_factors : cmd := seq [ ListCopy 20 1 1; permute_body 20 ].
+Definition old_cp_permute_factors : cmd := seq [ Rebind 20 1; permute_body 20 ].
+
+(* --- einsum khatri_rao(matrices=0, mask=1) *)
+Definition sk_khatri_rao_mask : cmd := seq [ ListCopy 10 0 3; ListAppend 10 1; Alloc 11 4; View 12 11 [0; 1; 2; 3] ].
+Definition old_khatri_rao_mask : cmd := seq [ ListAppend 0 1; Alloc 11 4; View 12 11 [0; 1; 2; 3] ].
+
+(* --- active_set_nnls(Utm=0, UtU=1, x=2) with a warm start *)
+Definition active_set_body (update : cmd) : cmd := seq [
+  View 10 2 [0; 1];                           (* x_vec = tensor_to_vec(x): reshape = a VIEW of x when x is contiguous *)
+  Alloc 11 2; Alloc 12 2; Alloc 13 2; Alloc 14 2;   (* gradient, passive_set, active_set, support_vec *)
+  Repeat 2 (seq [
+    WriteInto 12 [1%Z]; WriteInto 13 [0%Z];   (* index_update on the (fresh) boolean masks *)
+    Alloc 15 2; WriteInto 14 [1%Z; 1%Z];      (* passive solution -> support_vec *)
+    Alloc 16 2; update;                       (* update = alpha * (support_vec - x_vec); x_vec = x_vec + update *)
+    Alloc 12 2; Alloc 13 2;
+    Alloc 17 2; Rebind 10 17; Alloc 11 2 ]) ]. (* x_vec = clip(support_vec) *)
+Definition sk_active_set_nnls : cmd := active_set_body (seq [ Alloc 17 2; Rebind 10 17 ]).
+Definition mut_active_set_nnls : cmd := active_set_body (InplaceOp 10 2).   (* x_vec += update *)
+
+(* --- cp_mode_dot(cp_tensor=0, matrix_or_vector=1, mode=1) with a vector (contraction) *)
+Definition mode_dot_vec_body (w fs : var) : cmd := seq [
+  ListGet 20 fs 1; ListRemove fs 1;           (* factor = factors.pop(mode) *)
+  Alloc 21 2;                                 (* factor = dot(vector, factor) *)
+  ListGet 22 fs 0; InplaceOp 22 2 ].          (* factors[mode - 1] *= factor *)
+Definition sk_cp_mode_dot_copy : cmd := seq [
+  ListGet 10 0 0; ListGet 11 0 1;
+  ListGet 12 11 0; Copy 13 12; ListGet 12 11 1; Copy 14 12; ListGet 12 11 2; Copy 15 12;
+  ListNew 16 [13; 14; 15]; Copy 17 10;
+  mode_dot_vec_body 17 16; CPTENSOR 18 17 16 ].
+Definition sk_cp_mode_dot_nocopy : cmd := seq [
+  ListGet 10 0 0; ListGet 11 0 1;
+  mode_dot_vec_body 10 11;
+  Alloc 23 2; ListSet 0 2 23 ].               (* cp_tensor.shape = tuple(...) *)
+(* matrix operand: factors[mode] = reshape(dot(matrix, factors[mode]), ..) *)
+Definition sk_cp_mode_dot_matrix_nocopy : cmd := seq [
+  ListGet 10 0 0; ListGet 11 0 1; ListGet 12 11 1; Alloc 13 2; View 14 13 [0; 1]; ListSet 11 1 14;
+  Alloc 23 2; ListSet 0 2 23 ].
+
+(* --- parafac2_to_slices(parafac2_tensor=0) with non-unit weights *)
+Definition p2_slices_body (scale : cmd) : cmd := seq [
+  ListGet 10 0 0; ListGet 11 0 1; ListGet 12 0 2;
+  ListGet 13 11 0; ListGet 14 11 1; ListGet 15 11 2;
+  scale;                                      (* A = A * weights *)
+  ListNew 17 [13; 14; 15]; ListNew 18 [19; 17; 12];
+  View 20 13 [0]; View 21 15 [1; 0]; ListGet 22 12 0; Alloc 23 2; Alloc 24 2; Alloc 25 4;
+  View 20 13 [1]; ListGet 22 12 1; Alloc 23 2; Alloc 24 2; Alloc 26 4;
+  ListNew 27 [25; 26] ].
+Definition sk_parafac2_to_slices : cmd := p2_slices_body (seq [ Alloc 16 2; Rebind 13 16 ]).
+Definition mut_parafac2_to_slices : cmd := p2_slices_body (InplaceOp 13 2).  (* A *= weights *)
+
+(* --- CP_PLSR.fit(X=0, Y=1): explicit copies, then in-place centring and deflation of the copies *)
+Definition sk_cp_plsr_fit : cmd := seq [ Copy 10 0; Copy 11 1; InplaceOp 10 2; InplaceOp 11 2; Alloc 12 2; InplaceOp 10 3 ].
+Definition mut_cp_plsr_fit : cmd := seq [ Rebind 10 0; Copy 11 1; InplaceOp 10 2; InplaceOp 11 2; Alloc 12 2; InplaceOp 10 3 ].
+
+(* a concrete caller heap used by the examples: a tensor, a CP initialisation (weights, [A, B, C]) whose
+   B is a transposed view, a fixed_modes list and a mask *)
+Definition demo_heap : heap := [
+  OBuf [1; 2; 3; 4]%Z;                                          (* 0 tensor *)
+  OBuf [2; 3]%Z; OBuf [1; 2]%Z; OBuf [3; 4]%Z; OBuf [5; 6]%Z;   (* 1 weights, 2 A, 3 B, 4 C *)
+  OCell [RObj 2 [0; 1]; RObj 3 [1; 0]; RObj 4 [0; 1]];          (* 5 the factor list *)
+  OCell [RObj 1 [0; 1]; RObj 5 []];                             (* 6 init = (weights, factors) *)
+  OCell [RObj 7 []; RObj 7 []];                                 (* 7 fixed_modes (entries: immaterial) *)
+  OBuf [1; 0; 1; 1]%Z ].                                        (* 8 mask *)
+Definition demo_args : list ref := [RObj 0 [0; 1; 2; 3]; RObj 6 []; RObj 7 []; RObj 8 [0; 1; 2; 3]].
